@@ -106,11 +106,7 @@ var verifC02 struct {
 	gotPost  bool
 	served   *verifC02Doc
 
-	m      *Manager
-	method string
-	claim  string
-	iss    string
-	aud    string
+	m *Manager
 }
 
 func verifC02JWKS(ec *ecdsa.PrivateKey, r *rsa.PrivateKey) string {
@@ -956,7 +952,7 @@ func verifC02Class(op, impl string) string {
 
 func TestVerifC02(t *testing.T) {
 	verifutil.Main(t, &verifutil.Harness{
-		ID: "C02", Exec: verifC02Exec, Gen: verifC02Gen, Quick: 1500, Thorough: 12000,
+		ID: "C02", Exec: verifC02Exec, Gen: verifC02Gen, Quick: 1000, Thorough: 12000,
 		Class:      verifC02Class,
 		NonTrivial: func(op, impl string) bool { return strings.HasPrefix(op, "auth") },
 	})
